@@ -7,6 +7,7 @@ about over any Mathlib `Field` in `EllswiftLemmas.lean`. Core-only.
 import BV.Common.Hex
 import BV.Common.Sha256
 import BV.Common.Secp256k1
+import BV.C19.Field
 namespace BV.C19.Ellswift
 
 structure FieldOps (F : Type) where
@@ -95,16 +96,15 @@ def xswiftecInv (u x : F) (case : Nat) : Option F :=
 end generic
 
 /-! ### the concrete field of secp256k1 -/
-open BV.Secp256k1 in
 def natOps : FieldOps Nat where
-  add := fadd
-  sub := fsub
-  mul := fmul
-  neg := fneg
-  inv := finv
-  ofNat := fun n => n % p
-  sqrt := fsqrt
-  c := 0x0a2d2ba93507f1df233770c2a797962cc61f6d15da14ecd47d8d27ae1cd5f852
+  add := Field.fadd
+  sub := Field.fsub
+  mul := Field.fmul
+  neg := Field.fneg
+  inv := Field.finv
+  ofNat := fun n => n % Field.p
+  sqrt := Field.fsqrt
+  c := Field.cSqrtM3
 
 open BV.Hex BV.Secp256k1
 
